@@ -26,6 +26,7 @@ JudgeRun(e) ==
         ex == Expected(W)
         cons == Conservation(W, out) IN
     /\ Check(e, "Returns", e.exc = "")
+    /\ Check(e, "Premise", CloudsSeparated(W))
     /\ e.exc = "" =>
         /\ Check(e, "Conservation", cons)
         /\ Check(e, "TagShape", \A n \in DOMAIN out : TagShape(out[n]))
